@@ -14,21 +14,17 @@ from collections import Counter
 import vlib
 
 THEOREMS = [
-    "csv_codec_roundtrip", "csv_reader_roundtrip", "csv_header_drops_first_row",
+    "csv_codec_roundtrip", "csv_reader_roundtrip", "csv_header_drops_first_record", "csv_file_roundtrip",
     "table_roundtrip_partial",
     "null_cell_unsound", "null_cell_int_error", "empty_string_unsound", "zero_interval_unsound",
-    "escape_option_unsound", "blob_column_unsound", "header_unsound",
+    "escape_option_regression", "blob_column_regression", "header_regression",
 ]
 
 WHY_SIG = {
-    "header": ("csv:header-drops-first-row", "COPY TO with HEADER writes no header line (csv write_record ignores has_headers) while COPY FROM with HEADER swallows the first record: the first row is lost"),
     "null-cell": ("csv:null-cell", "NULL is exported as the four letters NULL and imported as the string 'NULL' (or a parse error in a non-string column)"),
     "empty-string": ("csv:empty-string", "the empty string is exported as an empty field and imported as NULL (push_str: empty text = NULL)"),
     "empty-text": ("csv:empty-interval", "the zero interval prints as the empty text and is imported as NULL"),
-    "escape": ("csv:escape-option", "with an ESCAPE option the writer still doubles quotes and leaves the escape byte alone, the reader un-escapes inside quoted fields: fields containing the escape byte and a special byte are corrupted"),
-    "blob-column": ("csv:blob-column-import", "COPY FROM into a table with a BLOB column inserts nothing and reports success: ArrayImpl::cast is todo!() for Blob arrays, the operator task panics"),
     "cell-text": ("csv:cell-text-roundtrip", "a cell whose Display text does not parse back to the value (the C19 findings: timestamp with sub-second part or BC year < -9999, blob with backslash/quote, interval with sub-second part)"),
-    "cell-display-panic": ("csv:export-cell-display-panic", "a cell whose Display panics (date/timestamp outside chrono's range) kills the writer thread: COPY TO reports success and leaves a truncated file"),
 }
 
 
